@@ -21,6 +21,14 @@ structure Frame where
   ip : Nat
   deriving Repr, Inhabited, BEq
 
+/-- A catch label with the machine state recorded when the `try` block was entered. -/
+structure Handler where
+  target : Frame
+  callDepth : Nat
+  stackHeight : Nat
+  mp : Int
+  deriving Inhabited
+
 inductive Org where
   | listElem (addr idx : Nat)
   | field (addr : Nat) (name : String)
@@ -42,7 +50,7 @@ structure VMState where
   calls : List Frame := []           -- top first
   mem : List (Int × Val) := []       -- absolute index ↦ value
   mp : Int := 0
-  handlers : List Frame := []        -- top first
+  handlers : List Handler := []      -- top first
   iters : List (Nat × List Val) := []  -- iterator id ↦ remaining elements
   nextIter : Nat := 0
   globals : List (String × Val) := []
@@ -391,7 +399,8 @@ def step (code : Code) (lim : Limits) (s : VMState) (i : RInstr) (sp : Span) : S
         .next (advance (push1 s'' v org))
       | (.error c, s'') => ctlToRes c s''
     | _ => .panic "stack underflow" s
-  | .setTry fn l => .next (advance { s with handlers := ⟨fn, l⟩ :: s.handlers })
+  | .setTry fn l =>
+    .next (advance { s with handlers := ⟨⟨fn, l⟩, s.calls.length, s.stack.length, s.mp⟩ :: s.handlers })
   | .popTry =>
     match s.handlers with
     | _ :: rest => .next (advance { s with handlers := rest })
@@ -488,17 +497,18 @@ def runQuantum (code : Code) (lim : Limits) : Nat → VMState → VMState ⊕ Ou
               match s'.handlers with
               | [] => .inr (.fatal "UncaughtThrow" msg tsp s')
               | h :: _ =>
-                -- one frame is popped if the handler belongs to another function
-                let calls := match s'.calls with
-                  | top :: below => if top.fn != h.fn then below else top :: below
-                  | [] => []
+                -- unwind to the activation that installed the handler: drop the frames above it, the
+                -- operands pushed since, and restore its memory pointer
+                let calls := s'.calls.drop (s'.calls.length - h.callDepth)
                 match calls with
                 | [] => .inr (.panic "no frame for the handler" s')
                 | _ :: below =>
+                  let stack := s'.stack.drop (s'.stack.length - h.stackHeight)
                   let (obj, st') := (alloc (.obj [("message", .str msg), ("line", .int (I64.ofInt tsp.sl)),
                       ("column", .int (I64.ofInt tsp.sc)), ("filename", .str "main")])) s'.st
                   match obj with
-                  | .ok o => runQuantum code lim n (push1 { s' with calls := h :: below, st := st' } o)
+                  | .ok o =>
+                    runQuantum code lim n (push1 { s' with calls := h.target :: below, stack := stack, mp := h.mp, st := st' } o)
                   | .error _ => .inr (.panic "alloc" s')
             | .intr (.fatal k msg fsp) s' => .inr (.fatal k msg fsp s')
             | .intr .term s' => .inr (.term s')
